@@ -14,7 +14,7 @@ from .. import pysym, shims, kharness as K
 from ..pysym import real, integer, to_z3, Opaque, SymRaise
 from . import py_conecyl as PC
 
-NLM = PC.CC + '_calc_NL_matrices'
+NLM = PC.CC + 'calc_kT/_calc_NL_matrices'
 FI = PC.CC + 'calc_fint'
 
 
@@ -47,12 +47,12 @@ def check_model(led, model):
     from .c16 import model_db
     db = model_db()
     size = db[model]['num0'] + db[model]['num1'] * M1 + db[model]['num2'] * M2 * N2
-    nfree = size - 2
+    nfree = size - 3
     cu = np.array([real('c%d' % k) for k in range(nfree)], dtype=object)
     inc = real('inc')
     k0 = Opaque('k0', shape=(size, size))
     Fmat = Opaque('Fmat')
-    attrs = dict(model=model, alphadeg=real('alphadeg'), r2=real('r2'), L=real('L'), m1=M1, m2=M2, n2=N2, pdC=False, pdT=True,
+    attrs = dict(model=model, alphadeg=real('alphadeg'), r2=real('r2'), L=real('L'), m1=M1, m2=M2, n2=N2, pdC=True, pdT=True, uTM=real('uTM'), thetaTdeg=real('thetaTdeg'), betadeg=real('betadeg'),
                  stack=[real('th0')], plyt=real('plyt'), laminaprop=(real('E1'),), nx=integer('nx'), nt=integer('nt'),
                  ni_num_cores=integer('cores'), ni_method='simps2d', c0=Opaque('c0'), m0=integer('m0'), n0=integer('n0'),
                  E11=real('E11'), nu=real('nu'), h=real('h'))
@@ -67,8 +67,8 @@ def check_model(led, model):
             it.setattr(cc, 'k0', k0)
             it.setattr(cc, 'F', Fmat)
             if what == 'kT':
-                it.call(it.getattr(cc, '_calc_NL_matrices'), [cu], dict(inc=inc, silent=True))
-                return cc, None, list(calls)
+                r_ = it.call(it.getattr(cc, 'calc_kT'), [cu], dict(inc=inc, silent=True))
+                return cc, r_, list(calls)
             r_ = it.call(it.getattr(cc, 'calc_fint'), [cu], dict(inc=inc, silent=True))
             return cc, r_, list(calls)
         res = it.explore(run)
@@ -125,6 +125,8 @@ def check_model(led, model):
                     o = {nm.split('.')[-1]: Opaque('nlmat', name=nm, n=order.index(nm) + 1) for nm in order}
                     want = Opaque('sum', terms=[k0, o['calc_k0L'], Opaque('transpose', of=o['calc_k0L']), Opaque('sym', of=o['calc_kLL']), Opaque('sym', of=o['calc_kG'])])
                     got = cc.attrs.get('kTuu')
+                    if ret is not got:
+                        probs.append('calc_kT returns %r instead of kTuu' % (ret,))
                     if not (isinstance(got, Opaque) and got.kind == 'kuu' and isinstance(got.f['of'], Opaque) and got.f['of'].key() == want.key()):
                         probs.append('kTuu is %r instead of the kuu block of k0 + k0L + k0L^T + sym(kLL) + sym(kG)' % (got,))
                 clause = 'kT = k0 + k0L + k0L^T + sym(kLL) + sym(kG) with the state, geometry and grid of the call'
@@ -134,7 +136,7 @@ def check_model(led, model):
                     probs.append('kernel calls: %s' % [c_[0] for c_ in pcalls])
                 else:
                     check_args(nm, by[nm][0][0], by[nm][0][1], False)
-                    want = Opaque('delete', of=Opaque('sum', terms=[Opaque('nlmat', name=nm, n=1), Opaque('matvec', a=k0, b=list(cfull))]), idx=[1, 2], axis=None)
+                    want = Opaque('delete', of=Opaque('sum', terms=[Opaque('nlmat', name=nm, n=1), Opaque('matvec', a=k0, b=list(cfull))]), idx=[0, 1, 2], axis=None)
                     if not (isinstance(ret, Opaque) and ret.key() == want.key()):
                         probs.append('returns %r' % (ret,))
                 clause = 'fint = calc_fint_0L_L0_LL(calc_full_c(c)) + k0 calc_full_c(c), prescribed entries removed'
@@ -210,9 +212,28 @@ def check_integratev(led):
         (led.ok(nm, lab2) if okb else led.fail(nm, lab2, {'stores into betas': [ast.unparse(n) for n in stores]}, signature='betas:' + fn))
 
 
+def attach_replays(led):
+    fails = [f for f in led.failed if f.get('replay') is None and 'conecyl.py' in f['function']]
+    if not fails:
+        return
+    from .. import pyreplay, shell_oracle as O
+    pay = dict(m1=2, m2=2, n2=2, r2=250., H=500., alphadeg=15., amp=2.0, laminaprop=[123.55e3, 8.708e3, 0.319, 5.695e3, 5.695e3, 5.695e3],
+               stack=[30, -30, 45], plyt=0.125, model='clpt_donnell_bc1', pdC=True, uTM=1.0, thetaTdeg=0.5, inc=0.5)
+    try:
+        r = pyreplay.run_real(O.TANGENT, pay, timeout=1500)
+        rep = {'reproduced': bool(r.get('n_entries_off')) or bool(r.get('raised')), 'input': pay, 'result': r,
+               'real_function': 'ConeCyl.calc_kT vs central difference of ConeCyl.calc_fint (prescribed shortening, load factor 0.5)'}
+    except Exception as e:
+        rep = {'reproduced': False, 'replay_error': repr(e)}
+    for f in fails:
+        f['replay'] = rep
+
+
 def check(led):
     led.function(NLM)
     led.function(FI)
     for model in ('clpt_donnell_bc1', 'clpt_sanders_bc2', 'iso_clpt_donnell_bc2', 'fsdt_donnell_bc1'):
         check_model(led, model)
     check_integratev(led)
+    if hasattr(led, 'failed'):
+        attach_replays(led)
